@@ -548,4 +548,57 @@ instance : BlockOps (fun (_ _ : String) => Mat) where
   add := Mat.add
   mul := Mat.mul
 
+/-! ### `Discipline._init_jacobian`: the sizes of the zero blocks are read in the CURRENT data
+
+`_init_jacobian(input_names, output_names, fill_missing_keys=True)` — called by every composite process at
+the end of its `_compute_jacobian` — asks the data converters for the sizes of the requested names *in
+`self.io.data`* (`compute_names_to_sizes(names, self.io.data)`) at every call and adds, for every requested
+pair without a block, `zeros((size[o], size[x]))`.  Grammars do not fix sizes: the sizes are data of the
+input point, a later point may be made of vectors of other lengths.  Nothing is kept between two calls. -/
+
+section Sizes
+variable {V : Type} [DecidableEq V]
+
+/-- `compute_names_to_sizes(names, data)`: the size of a named variable is the length of its current
+    value. -/
+def namesToSizes {D : Type} (len : D → Nat) (data : V → D) (names : List V) : List (V × Nat) :=
+  names.map (fun n => (n, len (data n)))
+
+/-- Look-up in a `names_to_sizes` dictionary. -/
+def sizeIn (tab : List (V × Nat)) (v : V) : Nat :=
+  match tab.find? (fun e => e.1 == v) with
+  | some e => e.2
+  | none => 0
+
+/-- The zero block added for a missing `(o, x)` key. -/
+def zeroFillOf (inSizes outSizes : List (V × Nat)) : (o x : V) → Mat :=
+  fun o x => Mat.zeros (sizeIn outSizes o) (sizeIn inSizes x)
+
+/-- A linearization request as `_init_jacobian` sees it: the current data of the process (values of any
+    type `D`, `len` gives their length) and the requested input and output names. -/
+structure SizedReq (V D : Type) where
+  data : V → D
+  xs : List V
+  os : List V
+
+/-- The zero blocks of a request are formed from the sizes of ITS data. -/
+def SizedReq.fill {D : Type} (len : D → Nat) (r : SizedReq V D) : (o x : V) → Mat :=
+  zeroFillOf (namesToSizes len r.data r.xs) (namesToSizes len r.data r.os)
+
+/-- The answers of ONE chain object to a history of requests at points whose vectors may have different
+    lengths from one request to the next: request `k` is answered from the dictionaries its disciplines
+    computed at its point (`ds`) and the zero blocks of its own data — there is no size state. -/
+def sizedAnswers {D : Type} [BlockOps (fun (_ _ : V) => Mat)] (len : D → Nat) (vars : List V)
+    (history : List (SizedReq V D × List (Disc (fun (_ _ : V) => Mat)))) : List (V → V → Mat) :=
+  history.map (fun e => fun o x => chainJac vars (e.1.fill len) e.2 o x)
+
+/-- SEEDED VARIANT (not the code; class of the seeded change "memoized variable sizes"): the sizes are
+    computed once per name and remembered by the object; only the names not seen yet are computed from the
+    current data.  Returns the sizes used for the request and the new memo. -/
+def memoSizes {D : Type} (len : D → Nat) (memo : List (V × Nat)) (data : V → D) (names : List V) :
+    List (V × Nat) :=
+  memo ++ namesToSizes len data (names.filter (fun n => !(memo.any (fun e => e.1 == n))))
+
+end Sizes
+
 end GV.C09
